@@ -28,7 +28,7 @@ import MachSysS.gymir_result_pb2 as proto_gymir
 from MachSysS.convert_feems_result_to_proto import FEEMSResultConverter
 
 THEOREMS = ["fields_covered", "readback_scalars", "readback_rest", "readback_nox", "dropped_without_counterpart", "time_base_series",
-            "time_base_scalar", "time_base_input", "series_own", "series_legacy_wrong"]
+            "time_base_scalar", "time_base_input", "starts_get", "time_base_constant_step", "time_base_legacy_shifted", "series_own", "series_legacy_wrong"]
 DEPENDS_ON_MODULES = ["FeemsProofs.C17"]
 FUEL_CONSUMERS = (TypeComponent.GENSET, TypeComponent.FUEL_CELL_SYSTEM, TypeComponent.FUEL_CELL, TypeComponent.COGES,
                   TypeComponent.MAIN_ENGINE, TypeComponent.MAIN_ENGINE_WITH_GEARBOX)
@@ -97,7 +97,8 @@ def check_subsystem(ctx, side, res, msg, plant, case, where, model):
     if case["series"]:
         n = case["inputs"]["n"]
         dt = np.array(case["inputs"]["dt"], dtype=float)
-        want_time = np.cumsum(dt) if not case["scalar_dt"] else np.array([0.0])
+        # the instant from which sample k is held: 0, dt0, dt0 + dt1, ... (as the constant-step base and the epochs of an input series)
+        want_time = np.concatenate([[0.0], np.cumsum(dt)[:-1]]) if not case["scalar_dt"] else np.array([0.0])
         if case["time_input"]:
             want_time = np.array(case["epochs"][:n], dtype=float)
         sysobj = plant.electric if side == "electric" else plant.mechanical
